@@ -15,15 +15,17 @@ import (
 	"encoding/hex"
 	"encoding/json"
 	"fmt"
+	"math/rand"
 	"os"
 	"path/filepath"
 	"reflect"
-	"runtime"
 	"regexp"
 	"regexp/syntax"
+	"runtime"
 	"sort"
 	"strconv"
 	"strings"
+	"time"
 
 	"github.com/gontainer/gontainer-helpers/v3/exporter"
 	"github.com/gontainer/gontainer-helpers/v3/grouperror"
@@ -54,6 +56,8 @@ func main() {
 		runCases(os.Args[2])
 	case "quote":
 		quoteLines()
+	case "fuzz":
+		fuzz(os.Args[2], os.Args[3], os.Args[4])
 	default:
 		fmt.Fprintln(os.Stderr, "unknown subcommand")
 		os.Exit(2)
@@ -63,15 +67,15 @@ func main() {
 // ---------------------------------------------------------------------------------------------- regex
 
 type reNode struct {
-	Op     string    `json:"op"`
-	Name   string    `json:"name,omitempty"`
-	Cap    int       `json:"cap,omitempty"`
-	Runes  []int     `json:"runes,omitempty"` // literal runes, or class ranges lo,hi,lo,hi
-	Fold   bool      `json:"fold,omitempty"`
-	NonGr  bool      `json:"nongreedy,omitempty"`
-	Min    int       `json:"min,omitempty"`
-	Max    int       `json:"max,omitempty"`
-	Sub    []*reNode `json:"sub,omitempty"`
+	Op    string    `json:"op"`
+	Name  string    `json:"name,omitempty"`
+	Cap   int       `json:"cap,omitempty"`
+	Runes []int     `json:"runes,omitempty"` // literal runes, or class ranges lo,hi,lo,hi
+	Fold  bool      `json:"fold,omitempty"`
+	NonGr bool      `json:"nongreedy,omitempty"`
+	Min   int       `json:"min,omitempty"`
+	Max   int       `json:"max,omitempty"`
+	Sub   []*reNode `json:"sub,omitempty"`
 }
 
 func conv(r *syntax.Regexp) *reNode {
@@ -627,6 +631,143 @@ func runCases(tmpbase string) {
 		_ = enc.Encode(runOne(tmpbase, c))
 		w.Flush()
 	}
+}
+
+// ---------------------------------------------------------------------------------------------- fuzz
+
+// fuzz <tmpbase> <seconds> <seed>: corpus (one JSON string per line) on stdin. Mutates the corpus, runs the real build
+// command in-process on every mutant with a watchdog; prints one JSON line per finding and a final summary line.
+func fuzz(tmpbase, secs, seed string) {
+	dur, _ := strconv.Atoi(secs)
+	_ = os.MkdirAll(tmpbase, 0o755)
+	sd, _ := strconv.ParseInt(seed, 10, 64)
+	rnd := rand.New(rand.NewSource(sd))
+	var corpus []string
+	sc := bufio.NewScanner(os.Stdin)
+	sc.Buffer(make([]byte, 1<<20), 1<<26)
+	for sc.Scan() {
+		var s string
+		if json.Unmarshal(sc.Bytes(), &s) == nil {
+			corpus = append(corpus, s)
+		}
+	}
+	dict := []string{"~", "[]", "{}", "[[]]", "{a: {b: {c: [1, {d: 2}]}}}", "!!binary aGVsbG8=", "&anc", "*anc", "<<: *anc", "!!str 5", "!!int \"x\"",
+		"2001-12-14t21:59:43.10-05:00", ".inf", "-.inf", ".nan", "0x7fffffffffffffff", "18446744073709551616", "1e400", "%", "%%", "%a%", "%f(%",
+		"@", "@@", "!value", "!value &", "!tagged ", "$gontainer", "\"", "'", ": ", "- ", "? ", "|", ">", "#", "\t", "\x00", "\xff\xfe", "\u2028",
+		strings.Repeat("a", 5000), strings.Repeat("[", 300), strings.Repeat("{a: ", 200), strings.Repeat("- ", 300), strings.Repeat("%x%", 400),
+		"services", "parameters", "meta", "decorators", "version", "arguments", "calls", "fields", "tags", "scope", "todo", "getter", "must_getter"}
+	mutate := func(s string) string {
+		b := []byte(s)
+		n := 1 + rnd.Intn(4)
+		for i := 0; i < n; i++ {
+			switch rnd.Intn(8) {
+			case 0:
+				if len(b) > 0 {
+					b[rnd.Intn(len(b))] = byte(rnd.Intn(256))
+				}
+			case 1:
+				if len(b) > 0 {
+					k := rnd.Intn(len(b))
+					b = append(b[:k], b[k+1:]...)
+				}
+			case 2:
+				k := rnd.Intn(len(b) + 1)
+				d := dict[rnd.Intn(len(dict))]
+				b = append(b[:k], append([]byte(d), b[k:]...)...)
+			case 3:
+				if len(b) > 2 {
+					i0 := rnd.Intn(len(b) - 1)
+					i1 := i0 + 1 + rnd.Intn(minInt(len(b)-i0-1, 40))
+					b = append(b[:i1], append(append([]byte{}, b[i0:i1]...), b[i1:]...)...)
+				}
+			case 4:
+				// replace a scalar-looking token
+				toks := regexp.MustCompile(`[A-Za-z0-9_.@%!$"*&/-]+`).FindAllIndex(b, -1)
+				if len(toks) > 0 {
+					tk := toks[rnd.Intn(len(toks))]
+					d := dict[rnd.Intn(len(dict))]
+					b = append(b[:tk[0]], append([]byte(d), b[tk[1]:]...)...)
+				}
+			case 5:
+				o := corpus[rnd.Intn(len(corpus))]
+				ls := strings.Split(o, "\n")
+				l := ls[rnd.Intn(len(ls))]
+				k := rnd.Intn(len(b) + 1)
+				b = append(b[:k], append([]byte("\n"+l+"\n"), b[k:]...)...)
+			case 6:
+				if len(b) > 1 {
+					b = b[:rnd.Intn(len(b))]
+				}
+			case 7:
+				if len(b) > 0 {
+					k := rnd.Intn(len(b))
+					b[k] ^= 1 << uint(rnd.Intn(8))
+				}
+			}
+		}
+		return string(b)
+	}
+	deadline := time.Now().Add(time.Duration(dur) * time.Second)
+	enc := json.NewEncoder(os.Stdout)
+	enc.SetEscapeHTML(false)
+	n, bad := 0, 0
+	exits := map[int]int{}
+	flagsets := []flags{{}, {Stub: true}, {IgnoreParams: true, IgnoreServices: true}, {Quiet: true}}
+	for time.Now().Before(deadline) {
+		src := corpus[rnd.Intn(len(corpus))]
+		if rnd.Intn(10) > 0 {
+			src = mutate(src)
+		}
+		c := caseSpec{ID: strconv.Itoa(n), Files: []fileSpec{{Path: "c.yaml", Content: src}}, Patterns: []string{"*.yaml"}, Output: "o.go",
+			Flags: flagsets[rnd.Intn(len(flagsets))], Version: "1.2.3", BuildInfo: "fz"}
+		if rnd.Intn(6) == 0 {
+			c.Files = append(c.Files, fileSpec{Path: "d.yaml", Content: mutate(corpus[rnd.Intn(len(corpus))])})
+		}
+		done := make(chan map[string]any, 1)
+		go func() { done <- runOne(tmpbase, c) }()
+		var res map[string]any
+		select {
+		case res = <-done:
+		case <-time.After(20 * time.Second):
+			res = map[string]any{"hang": true}
+		}
+		n++
+		finding := ""
+		if res["panic"] != nil {
+			finding = "panic"
+		} else if res["hang"] != nil {
+			finding = "hang"
+		} else if res["harness_error"] != nil || res["out_after"] == nil {
+			continue
+		} else {
+			ex, _ := res["exit"].(int)
+			exits[ex]++
+			after := res["out_after"].(fstat)
+			before := res["out_before"].(fstat)
+			if ex != 0 && ex != 1 {
+				finding = "exit-range"
+			} else if ex == 1 && (after != before) {
+				finding = "failure-touches-output"
+			} else if ex == 0 && (!after.Exists || after.Size == 0) {
+				finding = "exit0-no-output"
+			}
+		}
+		if finding != "" {
+			bad++
+			_ = enc.Encode(map[string]any{"finding": finding, "detail": fmt.Sprint(res["panic"]), "case": c})
+			if finding == "hang" {
+				break // the goroutine is stuck, stop this worker
+			}
+		}
+	}
+	_ = enc.Encode(map[string]any{"summary": true, "executions": n, "findings": bad, "exit0": exits[0], "exit1": exits[1]})
+}
+
+func minInt(a, b int) int {
+	if a < b {
+		return a
+	}
+	return b
 }
 
 // ---------------------------------------------------------------------------------------------- quote
